@@ -17,6 +17,9 @@ type RegEntry struct {
 	Len   int
 	Full  bool   // false: only the term is known (learned from a compaction boundary)
 	OpID  uint64 // for operation entries applied somewhere
+	// CommitTerm: the current term of the node that first reported the entry as committed
+	// (an upper bound of the term in which it was committed).
+	CommitTerm uint64
 	Src   string // who first reported it
 	Seq   uint64
 	Applied bool
@@ -185,6 +188,11 @@ func (r *Recorder) tainted(n *Node, cause string, relevant ...string) string {
 }
 
 func (r *Recorder) violate(prop, kind, cause, format string, args ...interface{}) {
+	if prop == "C09" && r.anyTaint["F4"] && kind != "config-divergence" {
+		// Known finding F4 (configurations two steps apart in force at once) was observed in
+		// this run: core safety violations attributed to C09 may be its consequence.
+		cause += "+F4"
+	}
 	v := Violation{Property: prop, Kind: kind, Cause: cause, Detail: fmt.Sprintf(format, args...), Seq: r.seq, TimeMs: r.c.nowMs()}
 	cl := v.Class()
 	r.seenClass[cl]++
@@ -335,13 +343,13 @@ func (r *Recorder) diskLostUnsynced(n *Node, files int) {
 
 // ------------------------------------------------------------------ registry
 
-func (r *Recorder) regPut(idx uint64, e MEntry, src string) {
+func (r *Recorder) regPut(idx uint64, e MEntry, src string, reporterTerm uint64) {
 	if idx == 0 {
 		return
 	}
 	old, ok := r.Reg[idx]
 	if !ok {
-		r.Reg[idx] = &RegEntry{Term: e.Term, Type: e.Type, Hash: e.Hash, Len: e.Len, Full: !e.Placeholder, Src: src, Seq: r.seq}
+		r.Reg[idx] = &RegEntry{Term: e.Term, Type: e.Type, Hash: e.Hash, Len: e.Len, Full: !e.Placeholder, Src: src, Seq: r.seq, CommitTerm: reporterTerm}
 		if idx > r.RegMax {
 			r.RegMax = idx
 		}
@@ -395,7 +403,11 @@ func (r *Recorder) onApply(inc *Incarnation, sm *ModelSM, a AppliedOp) {
 			old.Applied = true
 		}
 	} else {
-		r.Reg[a.Index] = &RegEntry{Term: a.Term, Type: raft.OperationEntry, Hash: a.Hash, Len: e.Len, Full: true, OpID: a.OpID, Src: "apply@" + inc.Name(), Seq: r.seq, Applied: true}
+		ct := a.Term
+		if inc.haveStatus && inc.lastStatus.Term > ct {
+			ct = inc.lastStatus.Term
+		}
+		r.Reg[a.Index] = &RegEntry{Term: a.Term, Type: raft.OperationEntry, Hash: a.Hash, Len: e.Len, Full: true, OpID: a.OpID, Src: "apply@" + inc.Name(), Seq: r.seq, Applied: true, CommitTerm: ct}
 		if a.Index > r.RegMax {
 			r.RegMax = a.Index
 		}
@@ -456,7 +468,7 @@ func (r *Recorder) onRestore(inc *Incarnation, sm *ModelSM, ops []AppliedOp, dat
 		r.violate("C11", "restore-older", r.tainted(inc.Node, "fewer-ops", "F3"), "%s: Restore with %d operations (last index %d) onto an instance that already applied %d (last index %d)",
 			inc.Name(), len(ops), last, len(sm.Ops), sm.lastIndexSinceRestore)
 	}
-	r.checkOpsArePrefix(inc, ops, "restored snapshot")
+	r.checkOpsArePrefix(inc, ops, "installed or restored snapshot")
 }
 
 // checkOpsArePrefix: C10(b) a state machine's content must be a prefix of the
@@ -536,7 +548,7 @@ func (r *Recorder) onStatus(inc *Incarnation, st raft.Status) {
 				continue // covered by a snapshot on this node: the log below the label is not authoritative
 			}
 			if e, ok := m.get(i); ok {
-				r.regPut(i, e, "commit@"+inc.Name())
+				r.regPut(i, e, "commit@"+inc.Name(), st.Term)
 			}
 		}
 	}
@@ -628,6 +640,12 @@ func (r *Recorder) onNewLeader(inc *Incarnation, st raft.Status) {
 		if !ok {
 			continue
 		}
+		// Leader completeness speaks about leaders of HIGHER terms than the one the entry was
+		// committed in: a node may legitimately win an old term late (votes granted long ago and
+		// delivered after a long delay) when a newer term has already committed entries.
+		if reg.CommitTerm >= st.Term {
+			continue
+		}
 		e, have := m.get(idx)
 		if !have || e.Term != reg.Term || (reg.Full && !e.Placeholder && (e.Hash != reg.Hash || e.Type != reg.Type)) {
 			missing++
@@ -643,6 +661,26 @@ func (r *Recorder) onNewLeader(inc *Incarnation, st raft.Status) {
 	conf, ok := r.c.configuration(inc)
 	if !ok {
 		return
+	}
+	if r.c.Cfg.Membership {
+		// Signature of known finding F4: the node leads (and was elected) with a configuration
+		// in force that is older than a configuration entry in its own log, because followers
+		// adopt a configuration only when it is applied.
+		for i := len(m.Entries) - 1; i >= 1; i-- {
+			if m.Entries[i].Type == raft.ConfigurationEntry && !m.Entries[i].Placeholder {
+				if m.Entries[i].Index > conf.Index {
+					r.probe("leader-elected-with-stale-configuration-in-force")
+					if r.anyTaint == nil {
+						r.anyTaint = map[string]bool{}
+					}
+					if !r.anyTaint["F4"] {
+						r.anyTaint["F4"] = true
+						r.ev("taint * F4")
+					}
+				}
+				break
+			}
+		}
 	}
 	voters := 0
 	for _, v := range conf.IsVoter {
